@@ -70,7 +70,13 @@ def main():
                 notes.append('FALSE ALARM ' + '; '.join(l for l in o.split('\n') if l.startswith('failed obligation'))[:200])
             if harmless and rc == 2:
                 notes.append('undecided: ' + '; '.join(l for l in o.split('\n') if l.startswith('UNDECIDED'))[:200])
-            if not harmless and rc != 1:
+            if not harmless and 'expected_exit' in meta:
+                # a change whose verdict under its own property is recorded as something else than a report (outside the
+                # documented preconditions, or a clause the check does not cover)
+                if rc not in meta['expected_exit']:
+                    bad += 1
+                    notes.append('exit %s, recorded expectation %s' % (rc, meta['expected_exit']))
+            elif not harmless and rc != 1:
                 expected_undec = meta.get('detected_under_own_property') is False
                 if rc == 0 or not expected_undec:
                     bad += 1
